@@ -44,136 +44,150 @@ def gen_labels_pair(rng, nb, nflat):
     return base, flat, kind, bstyle, fstyle
 
 
+
+def _uninterpretable(i, pid):
+    """an exception while a case was being built from what the library returned: a verdict about the library (the stream runs
+    on the unchanged tree with many seeds without ever getting here), not a crash of the check"""
+    import traceback
+    return {"stream": "uninterpretable", "op": "uninterpretable", "term": "[true; false; true; true]",
+            "input": {"case_number": i}, "impl_repr": "the case could not be built / interpreted: " + traceback.format_exc()[-700:],
+            "meta": {"impl_raised": True}, "sig": ["uninterpretable", pid, i], "trivial": False,
+            "hist": {"op": "uninterpretable"}}
+
+
 def generate(ctx):
     rng = ctx.rng
     cases = []
     for i in range(ctx.budget(150, 1300)):
-        op = ["add_nested", "add_nested", "add_nested", "add_nested_on", "from_flat", "from_flat_on", "from_lists", "nest_lists",
-              "setitem_new_nest", "add_nested_dtype"][i % 10]
-        schema = gen.spice_names(rng, gen.gen_schema(rng, 3))
-        names = [n for n, _ in schema]
-        nb = rng.randint(0, 6)
-        nflat = rng.choice([0, 1, 3, 6, 10]) if i % 11 else rng.randint(17, 60)
-        base_labels, flat_labels, lkind, bstyle, fstyle = gen_labels_pair(rng, nb, nflat)
-        nb = len(base_labels)
-        codes = fo.label_codes(base_labels + flat_labels)
-        cols = {name: [gen.gen_value(rng, t) for _ in range(nflat)] for name, t in schema}
-        T = [(codes[l], [cols[nm][k] for nm in names]) for k, l in enumerate(flat_labels)]
-        idx_dtype = "int64" if lkind == "int" else object
-        flat_df = pd.DataFrame({name: pd.array(pa.array(cols[name], type=gen.TYPES[t]), dtype=pd.ArrowDtype(gen.TYPES[t])) for name, t in schema},
-                               index=pd.Index(flat_labels, dtype=idx_dtype))
-        base = NestedFrame({"x": list(range(nb)), "y": [rng.choice(["p", "q"]) for _ in range(nb)]}, index=pd.Index(base_labels, dtype=idx_dtype))
-        args = {"op": op}
-        nontrivial = nflat > 0 and nb > 0
-        if op in ("add_nested", "add_nested_on", "add_nested_dtype", "setitem_new_nest"):
-            how = rng.choice(["left", "left", "right", "inner", "outer"]) if op in ("add_nested", "add_nested_dtype") else "left"
-            args["how"] = how
-            uniq = list(dict.fromkeys(sorted(flat_labels, key=lambda l: codes[l])))
-            # plan: plain pandas join of the base row ids with the distinct flat labels
-            left = pd.DataFrame({"_rid": list(range(nb))}, index=pd.Index(base_labels, dtype=idx_dtype))
-            right = pd.DataFrame({"_g": pd.array([codes[u] for u in uniq], dtype="Int64")}, index=pd.Index(uniq, dtype=idx_dtype))
-            if op == "add_nested_on":
-                # join on a base column holding the labels; the frame's own index is a plain range
-                base2 = NestedFrame({"x": list(range(nb)), "key": pd.Series(base_labels, dtype=idx_dtype).to_numpy()}, index=range(10, 10 + nb))
-                leftp = pd.DataFrame({"_rid": list(range(nb)), "key": pd.Series(base_labels, dtype=idx_dtype).to_numpy()}, index=range(10, 10 + nb))
-                plan_df = leftp.join(right, on="key", how="left")
-            else:
-                plan_df = left.join(right, how=how)
-            plan = [None if pd.isna(g) else int(g) for g in plan_df["_g"]]
-            rids = [None if pd.isna(r) else int(r) for r in plan_df["_rid"]]
-            want_index = [repr(x) for x in plan_df.index]
-            before = fo.snapshot(base)
-
-            def run():
+        try:
+            op = ["add_nested", "add_nested", "add_nested", "add_nested_on", "from_flat", "from_flat_on", "from_lists", "nest_lists",
+                  "setitem_new_nest", "add_nested_dtype"][i % 10]
+            schema = gen.spice_names(rng, gen.gen_schema(rng, 3))
+            names = [n for n, _ in schema]
+            nb = rng.randint(0, 6)
+            nflat = rng.choice([0, 1, 3, 6, 10]) if i % 11 else rng.randint(17, 60)
+            base_labels, flat_labels, lkind, bstyle, fstyle = gen_labels_pair(rng, nb, nflat)
+            nb = len(base_labels)
+            codes = fo.label_codes(base_labels + flat_labels)
+            cols = {name: [gen.gen_value(rng, t) for _ in range(nflat)] for name, t in schema}
+            T = [(codes[l], [cols[nm][k] for nm in names]) for k, l in enumerate(flat_labels)]
+            idx_dtype = "int64" if lkind == "int" else object
+            flat_df = pd.DataFrame({name: pd.array(pa.array(cols[name], type=gen.TYPES[t]), dtype=pd.ArrowDtype(gen.TYPES[t])) for name, t in schema},
+                                   index=pd.Index(flat_labels, dtype=idx_dtype))
+            base = NestedFrame({"x": list(range(nb)), "y": [rng.choice(["p", "q"]) for _ in range(nb)]}, index=pd.Index(base_labels, dtype=idx_dtype))
+            args = {"op": op}
+            nontrivial = nflat > 0 and nb > 0
+            if op in ("add_nested", "add_nested_on", "add_nested_dtype", "setitem_new_nest"):
+                how = rng.choice(["left", "left", "right", "inner", "outer"]) if op in ("add_nested", "add_nested_dtype") else "left"
+                args["how"] = how
+                uniq = list(dict.fromkeys(sorted(flat_labels, key=lambda l: codes[l])))
+                # plan: plain pandas join of the base row ids with the distinct flat labels
+                left = pd.DataFrame({"_rid": list(range(nb))}, index=pd.Index(base_labels, dtype=idx_dtype))
+                right = pd.DataFrame({"_g": pd.array([codes[u] for u in uniq], dtype="Int64")}, index=pd.Index(uniq, dtype=idx_dtype))
                 if op == "add_nested_on":
-                    flat2 = flat_df.reset_index(names="key")
-                    flat2.index = range(500, 500 + len(flat2))
-                    out = base2.add_nested(flat2, "n", on="key")
-                elif op == "setitem_new_nest":
-                    out = base.copy()
-                    f0 = names[0]
-                    out[f"n.{f0}"] = flat_df[f0]
-                    assert fo.snapshot(base) == before
-                elif op == "add_nested_dtype":
-                    out = base.add_nested(flat_df, "n", how=how, dtype=NestedDtype(pa.struct([pa.field(nm, pa.list_(gen.TYPES[t])) for nm, t in schema])))
+                    # join on a base column holding the labels; the frame's own index is a plain range
+                    base2 = NestedFrame({"x": list(range(nb)), "key": pd.Series(base_labels, dtype=idx_dtype).to_numpy()}, index=range(10, 10 + nb))
+                    leftp = pd.DataFrame({"_rid": list(range(nb)), "key": pd.Series(base_labels, dtype=idx_dtype).to_numpy()}, index=range(10, 10 + nb))
+                    plan_df = leftp.join(right, on="key", how="left")
                 else:
-                    out = base.add_nested(flat_df, "n", how=how)
-                assert isinstance(out, NestedFrame), "not a NestedFrame"
-                assert isinstance(out["n"].dtype, NestedDtype)
-                assert [repr(x) for x in out.index] == want_index, "row labels / order differ from the pandas join"
-                xs = [None if pd.isna(v) else int(v) for v in out["x"]]
-                assert xs == rids, "base values do not follow their rows"
-                if op != "setitem_new_nest":
-                    assert [str(f.type.value_type) for f in out["n"].dtype.pyarrow_dtype] == [str(gen.TYPES[t]) for _, t in schema], "element types changed"
-                if op not in ("add_nested_on",):
-                    assert fo.snapshot(base) == before, "the base frame was modified"
-                return fo.rows_rm(out["n"].array.chunked_array)
-            res = attempt(run)
-            Tm = T if op != "setitem_new_nest" else [(k, rec[:1]) for k, rec in T]
-            plan_t = cq_list("None" if g is None else f"(Some {cq_Z(g)})" for g in plan)
-            term = (f"(let T : ftable := {fo.cq_ftable(Tm)} in chk_rows (m_join_plan {plan_t} T) (Ok (spec_join_plan {plan_t} T)) {fo.cq_res_nrows(res)})")
-            args.update(plan=plan)
-        elif op in ("from_flat", "from_flat_on"):
-            bvals = [rng.choice([1, 2, 3, None]) for _ in range(nflat)]
-            df = flat_df.copy()
-            df["base_a"] = pd.array(bvals, dtype="Int64")
-            df["base_b"] = [f"s{k % 3}" for k in range(nflat)]
-            firsts = {}
-            for k, l in enumerate(flat_labels):
-                firsts.setdefault(l, k)
-            want_labels = list(firsts)
+                    plan_df = left.join(right, how=how)
+                plan = [None if pd.isna(g) else int(g) for g in plan_df["_g"]]
+                rids = [None if pd.isna(r) else int(r) for r in plan_df["_rid"]]
+                want_index = [repr(x) for x in plan_df.index]
+                before = fo.snapshot(base)
 
-            def run_ff():
-                if op == "from_flat_on":
-                    d2 = df.reset_index(names="lab")
-                    d2.index = range(700, 700 + len(d2))
-                    out = NestedFrame.from_flat(NestedFrame(d2), base_columns=["base_a", "base_b"], nested_columns=names, on="lab", name="n")
-                else:
-                    out = NestedFrame.from_flat(NestedFrame(df), base_columns=["base_a", "base_b"], nested_columns=names, name="n")
-                assert isinstance(out, NestedFrame)
-                assert [repr(x) for x in out.index] == [repr(x) for x in want_labels], "base rows are not the distinct labels in first-occurrence order"
-                assert [None if pd.isna(v) else int(v) for v in out["base_a"]] == [bvals[firsts[l]] for l in want_labels], "base value is not the first occurrence's"
-                assert list(out["base_b"]) == [f"s{firsts[l] % 3}" for l in want_labels]
-                return fo.rows_rm(out["n"].array.chunked_array)
-            res = attempt(run_ff)
-            base_recs = cq_list(fo.cq_record([b]) for b in bvals)
-            term = (f"(let T : ftable := {fo.cq_ftable(T)} in let B : list record := {base_recs} in "
-                    f"chk_rows (res_map (map (fun x : Z * record * nrow => snd x)) (m_from_flat T B)) "
-                    f"(Ok (spec_add_nested_left (map (fun kb : Z * record => fst kb) (first_occurrences (map (fun kr : Z * record => fst kr) T) B)) T)) "
-                    f"{fo.cq_res_nrows(res)})")
-            nontrivial = nflat > 0
-        else:
-            # positional nesting of list-valued columns: one output row per input row, its own lists
-            lens = [rng.randint(0, 3) for _ in range(nb)]
-            lists = {name: [[gen.gen_value(rng, t) for _ in range(k)] for k in lens] for name, t in schema}
-            df = NestedFrame({"x": list(range(nb)),
-                              **{name: pd.Series(pa.array(lists[name], type=pa.list_(gen.TYPES[t])), dtype=pd.ArrowDtype(pa.list_(gen.TYPES[t])),
-                                                 index=base.index).array for name, t in schema}}, index=base.index)
-            repeated = len(set(base_labels)) != len(base_labels)
+                def run():
+                    if op == "add_nested_on":
+                        flat2 = flat_df.reset_index(names="key")
+                        flat2.index = range(500, 500 + len(flat2))
+                        out = base2.add_nested(flat2, "n", on="key")
+                    elif op == "setitem_new_nest":
+                        out = base.copy()
+                        f0 = names[0]
+                        out[f"n.{f0}"] = flat_df[f0]
+                        assert fo.snapshot(base) == before
+                    elif op == "add_nested_dtype":
+                        out = base.add_nested(flat_df, "n", how=how, dtype=NestedDtype(pa.struct([pa.field(nm, pa.list_(gen.TYPES[t])) for nm, t in schema])))
+                    else:
+                        out = base.add_nested(flat_df, "n", how=how)
+                    assert isinstance(out, NestedFrame), "not a NestedFrame"
+                    assert isinstance(out["n"].dtype, NestedDtype)
+                    assert [repr(x) for x in out.index] == want_index, "row labels / order differ from the pandas join"
+                    xs = [None if pd.isna(v) else int(v) for v in out["x"]]
+                    assert xs == rids, "base values do not follow their rows"
+                    if op != "setitem_new_nest":
+                        assert [str(f.type.value_type) for f in out["n"].dtype.pyarrow_dtype] == [str(gen.TYPES[t]) for _, t in schema], "element types changed"
+                    if op not in ("add_nested_on",):
+                        assert fo.snapshot(base) == before, "the base frame was modified"
+                    return fo.rows_rm(out["n"].array.chunked_array)
+                res = attempt(run)
+                Tm = T if op != "setitem_new_nest" else [(k, rec[:1]) for k, rec in T]
+                plan_t = cq_list("None" if g is None else f"(Some {cq_Z(g)})" for g in plan)
+                term = (f"(let T : ftable := {fo.cq_ftable(Tm)} in chk_rows (m_join_plan {plan_t} T) (Ok (spec_join_plan {plan_t} T)) {fo.cq_res_nrows(res)})")
+                args.update(plan=plan)
+            elif op in ("from_flat", "from_flat_on"):
+                bvals = [rng.choice([1, 2, 3, None]) for _ in range(nflat)]
+                df = flat_df.copy()
+                df["base_a"] = pd.array(bvals, dtype="Int64")
+                df["base_b"] = [f"s{k % 3}" for k in range(nflat)]
+                firsts = {}
+                for k, l in enumerate(flat_labels):
+                    firsts.setdefault(l, k)
+                want_labels = list(firsts)
 
-            def run_l():
-                if op == "from_lists":
-                    out = NestedFrame.from_lists(df, base_columns=["x"], list_columns=names, name="n")
-                else:
-                    out = df.nest_lists("n", names)
-                assert isinstance(out, NestedFrame), "not a NestedFrame"
-                assert [repr(v) for v in out.index] == [repr(v) for v in base_labels], "not one output row per input row"
-                assert [int(v) for v in out["x"]] == list(range(nb))
-                return fo.rows_rm(out["n"].array.chunked_array)
-            res = attempt(run_l)
-            want = [[[lists[nm][j][k] for nm in names] for k in range(lens[j])] for j in range(nb)]
-            term = f"(chk_rows (Ok {fo.cq_nrows(want)}) (Ok {fo.cq_nrows(want)}) {fo.cq_res_nrows(res)})"
-            nontrivial = nb > 0
-            args.update(repeated_labels=repeated)
-        cases.append({
-            "stream": "nest", "op": op, "term": term,
-            "input": {"schema": schema, "base_labels": [repr(x) for x in base_labels], "flat_labels": [repr(x) for x in flat_labels][:80],
-                      "args": {k: repr(v)[:200] for k, v in args.items()}},
-            "impl_repr": str(res)[:500],
-            "meta": {"impl_raised": res[0] == "err", "repeated_labels": len(set(base_labels)) != len(base_labels), "label_kind": lkind,
-                     "base_style": bstyle, "flat_style": fstyle},
-            "sig": [op, args.get("how"), lkind, bstyle, fstyle, nb, nflat // 4], "trivial": not nontrivial,
-            "hist": {"op": op, "how": str(args.get("how")), "labels": lkind, "base": bstyle, "flat": fstyle, "raised": res[0] == "err"}})
+                def run_ff():
+                    if op == "from_flat_on":
+                        d2 = df.reset_index(names="lab")
+                        d2.index = range(700, 700 + len(d2))
+                        out = NestedFrame.from_flat(NestedFrame(d2), base_columns=["base_a", "base_b"], nested_columns=names, on="lab", name="n")
+                    else:
+                        out = NestedFrame.from_flat(NestedFrame(df), base_columns=["base_a", "base_b"], nested_columns=names, name="n")
+                    assert isinstance(out, NestedFrame)
+                    assert [repr(x) for x in out.index] == [repr(x) for x in want_labels], "base rows are not the distinct labels in first-occurrence order"
+                    assert [None if pd.isna(v) else int(v) for v in out["base_a"]] == [bvals[firsts[l]] for l in want_labels], "base value is not the first occurrence's"
+                    assert list(out["base_b"]) == [f"s{firsts[l] % 3}" for l in want_labels]
+                    return fo.rows_rm(out["n"].array.chunked_array)
+                res = attempt(run_ff)
+                base_recs = cq_list(fo.cq_record([b]) for b in bvals)
+                term = (f"(let T : ftable := {fo.cq_ftable(T)} in let B : list record := {base_recs} in "
+                        f"chk_rows (res_map (map (fun x : Z * record * nrow => snd x)) (m_from_flat T B)) "
+                        f"(Ok (spec_add_nested_left (map (fun kb : Z * record => fst kb) (first_occurrences (map (fun kr : Z * record => fst kr) T) B)) T)) "
+                        f"{fo.cq_res_nrows(res)})")
+                nontrivial = nflat > 0
+            else:
+                # positional nesting of list-valued columns: one output row per input row, its own lists
+                lens = [rng.randint(0, 3) for _ in range(nb)]
+                lists = {name: [[gen.gen_value(rng, t) for _ in range(k)] for k in lens] for name, t in schema}
+                df = NestedFrame({"x": list(range(nb)),
+                                  **{name: pd.Series(pa.array(lists[name], type=pa.list_(gen.TYPES[t])), dtype=pd.ArrowDtype(pa.list_(gen.TYPES[t])),
+                                                     index=base.index).array for name, t in schema}}, index=base.index)
+                repeated = len(set(base_labels)) != len(base_labels)
+
+                def run_l():
+                    if op == "from_lists":
+                        out = NestedFrame.from_lists(df, base_columns=["x"], list_columns=names, name="n")
+                    else:
+                        out = df.nest_lists("n", names)
+                    assert isinstance(out, NestedFrame), "not a NestedFrame"
+                    assert [repr(v) for v in out.index] == [repr(v) for v in base_labels], "not one output row per input row"
+                    assert [int(v) for v in out["x"]] == list(range(nb))
+                    return fo.rows_rm(out["n"].array.chunked_array)
+                res = attempt(run_l)
+                want = [[[lists[nm][j][k] for nm in names] for k in range(lens[j])] for j in range(nb)]
+                term = f"(chk_rows (Ok {fo.cq_nrows(want)}) (Ok {fo.cq_nrows(want)}) {fo.cq_res_nrows(res)})"
+                nontrivial = nb > 0
+                args.update(repeated_labels=repeated)
+            cases.append({
+                "stream": "nest", "op": op, "term": term,
+                "input": {"schema": schema, "base_labels": [repr(x) for x in base_labels], "flat_labels": [repr(x) for x in flat_labels][:80],
+                          "args": {k: repr(v)[:200] for k, v in args.items()}},
+                "impl_repr": str(res)[:500],
+                "meta": {"impl_raised": res[0] == "err", "repeated_labels": len(set(base_labels)) != len(base_labels), "label_kind": lkind,
+                         "base_style": bstyle, "flat_style": fstyle},
+                "sig": [op, args.get("how"), lkind, bstyle, fstyle, nb, nflat // 4], "trivial": not nontrivial,
+                "hist": {"op": op, "how": str(args.get("how")), "labels": lkind, "base": bstyle, "flat": fstyle, "raised": res[0] == "err"}})
+        except Exception:  # noqa: BLE001
+            cases.append(_uninterpretable(i, 'C09'))
     for k, c in enumerate(cases):
         c["cid"] = k
     return cases
